@@ -360,7 +360,7 @@ def do_mutant(mu, tier="quick"):
             res["tests"] = out[-300:]
             return res
         res["status"] = "tests_pass"
-        env2 = dict(os.environ, SYSLOSS_SRC=d + "/src", VERIF_SEED="1")
+        env2 = dict(os.environ, SYSLOSS_SRC=d + "/src", VERIF_SEED="1", VERIF_NOSHRINK="1")
         for chk in mu["checks"]:
             rc, out, wall = run("cd {} && /venv/bin/python check.py {} --tier {}".format(
                 HERE, chk, tier), env2)
